@@ -239,6 +239,7 @@ def oracle(ctx):
     nested_sum_names_probe(ctx)
     substituted_forward_probe(ctx)
     options_snapshot_probe(ctx)
+    parameterless_operator_probe(ctx)
 
 
 def operator_reuse_probe(ctx):
@@ -513,6 +514,55 @@ def options_snapshot_probe(ctx):
         if not d == 0.0:
             ctx.fail("oracle", "solvegrad:options:changed-after-the-call", info, {"max_gradient_difference": d},
                      "bitwise the gradients obtained when the dictionary is left alone")
+
+
+def parameterless_operator_probe(ctx):
+    """operators WITHOUT tensor parameters (a fixed stencil: _getparamnames returns []) for A and / or M: the gradients w.r.t. B and E
+    are those of the dense solution map (finding F43: the backward pass asked autograd for gradients w.r.t. an empty list)"""
+    import xitorch as xt
+    from xitorch.linalg import solve
+    g = torch.Generator().manual_seed(ctx.seed + 73)
+
+    class Fixed(xt.LinearOperator):
+        def __init__(self, mat, herm):
+            super().__init__(shape=mat.shape, is_hermitian=herm, dtype=mat.dtype, device=mat.device)
+            self.mat = mat.detach()
+
+        def _mv(self, x):
+            return (self.mat @ x.unsqueeze(-1)).squeeze(-1)
+
+        def _getparamnames(self, prefix=""):
+            return []
+    n = 5
+    A0 = torch.randn(n, n, dtype=DT, generator=g) * 0.3 + 3.0 * torch.eye(n, dtype=DT)
+    Mh = torch.randn(n, n, dtype=DT, generator=g) * 0.2
+    M0 = Mh @ Mh.T + torch.eye(n, dtype=DT)
+    for useE, useM, fixedA, fixedM in ((False, False, True, False), (True, False, True, False), (True, True, True, True), (True, True, False, True)):
+        A = A0.clone().requires_grad_()
+        B = torch.randn(n, 2, dtype=DT, generator=g).requires_grad_()
+        E = (torch.randn(2, dtype=DT, generator=g) * 0.1).requires_grad_() if useE else None
+        Aop = Fixed(A, False) if fixedA else xt.LinearOperator.m(A, is_hermitian=False)
+        Mop = (Fixed(M0, True) if fixedM else xt.LinearOperator.m(M0, is_hermitian=True)) if useM else None
+        info = {"A": "no parameters" if fixedA else "dense", "M": None if not useM else ("no parameters" if fixedM else "dense"), "E": useE}
+        ctx.count(("parameterless-operator", useE, useM, fixedA, fixedM), nontrivial=True)
+        leaves = [B] + ([E] if useE else []) + ([] if fixedA else [A])
+        try:
+            with warnings.catch_warnings():
+                warnings.simplefilter("ignore")
+                X = solve(Aop, B, E, Mop, method="bicgstab", rtol=1e-12, atol=1e-14, bck_options={"method": "bicgstab", "rtol": 1e-12, "atol": 1e-14})
+                got = torch.autograd.grad((X * X).sum(), leaves)
+        except Exception as e:
+            ctx.fail("oracle", "solvegrad:parameterless-operator:exception", info, repr(e)[:300], "gradients w.r.t. B and E")
+            continue
+        cols = []
+        for c_ in range(2):
+            Sc = A - (E[c_] * (M0 if useM else torch.eye(n, dtype=DT)) if useE else 0.0)
+            cols.append(torch.linalg.solve(Sc, B[:, c_]))
+        Xr = torch.stack(cols, dim=-1)
+        ref = torch.autograd.grad((Xr * Xr).sum(), leaves)
+        err = max(float((u - w).abs().max()) for u, w in zip(got, ref))
+        if not err <= 1e-7:
+            ctx.fail("oracle", "solvegrad:parameterless-operator:value", info, err, "<= 1e-7 against the dense solution map")
 
 
 def search(ctx):
